@@ -177,8 +177,9 @@ def main():
     oracle_unlisted = []
     known_hex = set()
     suites = list(spec["suites"])
-    if tier == "thorough":
-        # "all other properties hold unchanged under both feature configurations" (C19)
+    if tier == "thorough" or spec.get("ext_in_quick"):
+        # "all other properties hold unchanged under both feature configurations" (C19); the properties with a
+        # clause about the extension feature itself (unnamed requirements) run that build in the quick tier too
         suites += [dict(su, features="ext") for su in spec["suites"] if su["name"] in ("req", "mparse", "algebra", "pyver")]
     for suite in suites:
         feats = suite.get("features", "")
